@@ -3,14 +3,19 @@
 (tools/lane.sh, default 4) that are synced to the current /verif first; /repo is not touched.
 Re-runs every seeded change against meta 'breaks' + 'also_run' (quick tier), rewrites
 quick_results / detected_by."""
-import json, os, re, subprocess, sys, glob, threading, queue
+import json, os, re, subprocess, sys, glob, threading, queue, time
 pat = sys.argv[1] if len(sys.argv) > 1 else '*'
 L = int(sys.argv[2]) if len(sys.argv) > 2 else 4
-for n in range(1, L + 1):
+FIRST = int(sys.argv[3]) if len(sys.argv) > 3 else 1
+for n in range(FIRST, FIRST + L):
     subprocess.run(['/verif/tools/lane.sh', 'setup', str(n)], check=False)
 q = queue.Queue()
 for d in sorted(glob.glob('/verif/seeded/%s/' % pat)):
     if os.path.exists(d + 'meta.json') and os.path.exists(d + 'patch.diff'):
+        # SKIP_MIN=<n>: leave out what was refreshed in the last n minutes (resume after an interruption)
+        skip = float(os.environ.get('SKIP_MIN', '0'))
+        if skip and (time.time() - os.path.getmtime(d + 'meta.json')) < skip * 60 and json.load(open(d + 'meta.json')).get('detected_by'):
+            continue
         q.put(d)
 rows, lock = [], threading.Lock()
 def work(n):
@@ -35,7 +40,7 @@ def work(n):
         with lock:
             rows.append((m['id'], m.get('breaks'), m['detected_by'], bool(m.get('not_claimed'))))
             if not m['detected_by']: print(m['id'], 'breaks', m.get('breaks'), 'detected_by', m['detected_by'], 'NOT-CLAIMED' if m.get('not_claimed') else 'MISSED', flush=True)
-ts = [threading.Thread(target=work, args=(n,)) for n in range(1, L + 1)]
+ts = [threading.Thread(target=work, args=(n,)) for n in range(FIRST, FIRST + L)]
 [t.start() for t in ts]; [t.join() for t in ts]
 missed = [r[0] for r in rows if not r[2] and not r[3]]
 print('TOTAL', len(rows), 'DETECTED', sum(1 for r in rows if r[2]), 'MISSED', len(missed), missed, 'NOT-CLAIMED', [r[0] for r in rows if r[3]])
